@@ -26,6 +26,7 @@ CONSTANTS
     Alpha,      \* the line alphabet: a SEQUENCE of line records
     Gens,       \* set of [mode, bank, vol] records ([General] defaults)
     MaxLines,   \* bound on the number of lines
+    MinLines,   \* Finish is enabled only after this many lines (0 for model checking; = MaxLines for `tlc -simulate`)
     Emit        \* print one CASE json line per finished behaviour
 
 Clamp(x, lo, hi) == IF x < lo THEN lo ELSE IF x > hi THEN hi ELSE x
@@ -115,7 +116,7 @@ Reject(k) ==
 Result == Flush(st).cp
 
 Finish ==
-    /\ ~done
+    /\ ~done /\ Len(hist) >= MinLines
     /\ done' = TRUE
     /\ st' = Flush(st)
     /\ (Emit => PrintT("CASE " \o ToJson([g |-> gen, h |-> hist, cp |-> Flush(st).cp,
